@@ -68,7 +68,6 @@ macro "dm_step" : tactic => `(tactic| first
   | exact DM.All_cb _
   | apply DM.All_bind
   | apply DM.All_attempt
-  | apply DM.All_ite
   | assumption)
 
 end Sx
